@@ -32,6 +32,8 @@ def gen_case(rnd, tier: str, i: Any) -> Dict[str, Any]:
         p = gen_sim.random_params(rnd, tier, rank=r, first_step=first_step, avoid_k1=True, n_steps=n_steps)
         if rnd.random() < 0.35:
             p.update(autograd=True, n_threads=rnd.choice([2, 2, 3]), n_steps=max(1, n_steps), main_autograd_op=rnd.random() < 0.4)
+            if p["n_threads"] == 3 and rnd.random() < 0.6:
+                p["autograd_threads"] = 2          # two autograd threads: the rank does not have "exactly one", nothing is attached
         tr = gen_sim.gen_trace(rnd, **p)
         gen_sim.drop_events(rnd, tr, p_launch=rnd.choice([0, 0, 0.1]), p_kernel=rnd.choice([0, 0, 0.1]))
         if rnd.random() < 0.25:
